@@ -34,12 +34,13 @@ class _Base(Component):
         run = CURRENT
         spec = run.case["classes"][self.IDX]
         run.created.append((type(self), kwargs, self))
-        for child in spec["children"]:
+        for k, child in enumerate(spec["children"]):
             t = _spell(child)
+            kwargs = run.hard_kwargs(self.IDX, k, child["kwargs"])
             if t is None:
-                self.add_component(child["alias"], **run.thaw(child["kwargs"]))
+                self.add_component(child["alias"], **kwargs)
             else:
-                self.add_component(child["alias"], t, **run.thaw(child["kwargs"]))
+                self.add_component(child["alias"], t, **kwargs)
 
     async def prepare(self) -> None:
         self._publish("prepare")
